@@ -306,6 +306,16 @@ def r7(ctx):
     import c03
     c03.r3(ctx)
 
+def r8(ctx):
+    """'the broadcast bit follows a received broadcast until reported (or, for confirm-mandatory broadcasts, confirmed)': which
+    address is confirm-mandatory is the link address table, rule C06.R5. 'the class bits are set exactly when the buffer holds events
+    of that class': the per-class totals are maintained under their namesake class and with the class of the record that is
+    removed, rules C03.R13 / C03.R7. Shared code."""
+    import c06, c03
+    c06.r5(ctx)
+    c03.r13(ctx)
+    c03.r7(ctx)
+
 RULES = [
     ("C13.R1", "T11/T4", "IIN bit positions and getters equal the standard", r1),
     ("C13.R2", "T8", "each response IIN bit is OR-ed under its namesake source", r2),
@@ -314,4 +324,5 @@ RULES = [
     ("C13.R5", "T2+T4", "overflow flag: set on displacement, cleared only when no type is full", r5),
     ("C13.R6", "T7", "IIN octets are merged by OR only: no accumulator field is overwritten; application flags OR in their namesake bit", r6),
     ("C13.R7", "T3", "events of a response series that ends unconfirmed return to the pool, so the class bits see them again (shared with C03.R3)", r7),
+    ("C13.R8", "T4/T11", "the three broadcast addresses map to their confirm modes as in the standard (shared with C06.R5); counter namesakes (C03.R13)", r8),
 ]
